@@ -27,6 +27,12 @@ Theorem C16_add_sub : forall t d,
   exists t1, time_add_dur t d = Ok t1 /\ t1 = t + d /\ time_sub_dur t1 d = Ok t.
 Proof. exact add_sub_exact. Qed.
 
+(** No silent wrap-around: Time +/- Duration always returns a value inside the
+    representable range (it saturates). *)
+Theorem C16_add_never_wraps : forall t d,
+  time_ok t = true -> exists r, time_add_dur t d = Ok r /\ time_ok r = true.
+Proof. exact time_add_dur_total. Qed.
+
 Theorem C16_diff : forall a b,
   in_ptp a = true -> in_ptp b = true -> time_diff a b = Ok (a - b).
 Proof. exact diff_exact. Qed.
